@@ -1,4 +1,4 @@
 #!/bin/bash
 # run the pinned baseline suite of /repo (or $1) and print the summary line
 R=${1:-/repo}
-cd $R && PYTHONPATH=$R/src /venv/bin/python -m pytest -ra -q -p no:cacheprovider --timeout=900 --continue-on-collection-errors 2>&1 | grep -E "^(FAILED|ERROR)|passed|failed" | tail -15
+cd $R && HYPOTHESIS_STORAGE_DIRECTORY=/tmp/hyp.$$ PYTHONPATH=$R/src /venv/bin/python -m pytest -ra -q -p no:cacheprovider --timeout=900 --continue-on-collection-errors 2>&1 | grep -E "^(FAILED|ERROR)|passed|failed" | tail -15
